@@ -374,6 +374,15 @@ pub fn build_scenarios(seed: u64, programs: &[Program], configs: &[usize], rng: 
                     interleave_seed: 0,
                     switch_permille: 0,
                 });
+                // "echo": the very same input again — at once on the same thread, or on another
+                if rng.chance(1, 5) {
+                    let t2 = if rng.chance(3, 4) { t } else { rng.below(nthreads as u64) as usize };
+                    schedule.push(Round {
+                        jobs: vec![Job { thread: t2, program: idx_of[&batch[k]], measured: true, perturb: random_perturb(rng) }],
+                        interleave_seed: 0,
+                        switch_permille: 0,
+                    });
+                }
                 k += 1;
             }
         }
@@ -1095,6 +1104,18 @@ pub fn run_check(tier_name: &str, seed: u64, verif_dir: &str) -> Outcome {
             "verdicts": verdicts,
             "distinct_hash_orders": orders.len(),
             "jobs_with_earlier_jobs_in_process": with_history,
+            "jobs_repeating_an_earlier_job_of_their_thread": scenarios.iter().map(|sc| {
+                let mut seen = BTreeSet::new();
+                let mut n = 0u64;
+                for r in &sc.schedule {
+                    for j in &r.jobs {
+                        if !seen.insert((j.thread, j.program)) {
+                            n += 1;
+                        }
+                    }
+                }
+                n
+            }).sum::<u64>(),
             "longest_history_of_one_thread": scenarios.iter().map(job_count).max().unwrap_or(0),
             "jobs_in_concurrent_rounds": concurrent_jobs,
             "interleaving_switches": switches,
